@@ -261,6 +261,45 @@ class Source:
         return Item(self, "fn", name, self.toks[s].start, self.toks[close].end,
                     sig_end=self.toks[j].start)
 
+    def all_fns(self, skip_test_mods=True):
+        """every `fn` with a body, at any nesting depth (free functions, methods, nested functions), in source
+        order; functions inside `mod tests { .. }` are skipped.  Items are named `name` or `name#k` (k-th of that name)."""
+        skip = []
+        if skip_test_mods:
+            for k, t in enumerate(self.toks):
+                if t.kind == "ident" and t.text == "mod" and k + 2 < len(self.toks) and self.toks[k + 1].text == "tests" \
+                        and self.toks[k + 2].text == "{":
+                    skip.append((k, match_close(self.toks, k + 2)))
+        out, seen = [], {}
+        for k, t in enumerate(self.toks):
+            if not (t.kind == "ident" and t.text == "fn" and k + 1 < len(self.toks) and self.toks[k + 1].kind == "ident"):
+                continue
+            if any(a <= k <= b for (a, b) in skip):
+                continue
+            depth, j, ok = 0, k, False
+            while j < len(self.toks):
+                u = self.toks[j]
+                if u.kind == "punct":
+                    if u.text in "([":
+                        depth += 1
+                    elif u.text in ")]":
+                        depth -= 1
+                    elif u.text == "{" and depth == 0:
+                        ok = True
+                        break
+                    elif u.text == ";" and depth == 0:
+                        break
+                j += 1
+            if not ok:
+                continue
+            close = match_close(self.toks, j)
+            name = self.toks[k + 1].text
+            seen[name] = seen.get(name, 0) + 1
+            it = Item(self, "fn", name if seen[name] == 1 else "%s#%d" % (name, seen[name]),
+                      self.toks[k].start, self.toks[close].end, sig_end=self.toks[j].start)
+            out.append(it)
+        return out
+
     def find_type(self, name):
         for k, t in enumerate(self.toks):
             if (t.kind == "ident" and t.text in ("struct", "enum") and k + 1 < len(self.toks)
